@@ -30,25 +30,11 @@ type c01 struct {
 	st    *Stats
 }
 
-func c01div(a, b int) int {
-	switch {
-	case a/10 < b/10:
-		return -1
-	case a/10 > b/10:
-		return 1
-	}
-	return 0
-}
+// The comparators deliberately return magnitudes other than 1: any sign-correct int is a legal
+// three-way comparison, and code that tests `== 1` / `== -1` instead of `> 0` / `< 0` must be caught.
+func c01div(a, b int) int { return 3 * (a/10 - b/10) }
 
-func c01nat(a, b int) int {
-	switch {
-	case a < b:
-		return -1
-	case a > b:
-		return 1
-	}
-	return 0
-}
+func c01nat(a, b int) int { return a - b }
 
 func (r *c01) cmp(a, b int) int {
 	r.calls++
